@@ -13,6 +13,9 @@ func UnmarshalBatchedTokenResponses(data []byte) ([][]byte, error) {
 	s := cryptobyte.String(data)
 
 	l, offset := quicwire.ConsumeVarint(data)
+	if offset < 0 || l > uint64(len(data)-offset) {
+		return nil, fmt.Errorf("invalid Token encoding")
+	}
 	s.Skip(offset)
 
 	token_responses_data := data[offset:(offset + int(l))]
